@@ -31,6 +31,7 @@ PROGRAMS = {
     "P3": ["build", "edit", "where", "render"],
     "P4": ["cli_render"],
     "P5": ["build", "render", "edit", "where", "render"],  # reference runs only: rendering before an edit must not matter
+    "P7": ["build", "edit", "render"],  # reference runs only: the read-only probes of P3 must not matter
     "P6": ["build", "render_odeint", "render_pattern", "render"],  # reference runs only: another back-end / the pattern option in between must not matter
 }
 
@@ -403,6 +404,7 @@ def run(ctx):
             ref_scheds.append(([(c, "P3")], [(0, "build"), (0, "edit"), (0, "where"), (0, "render")]))
             ref_scheds.append(([(c, "P5")], [(0, "build"), (0, "render"), (0, "edit"), (0, "where"), (0, "render")]))
             ref_scheds.append(([(c, "P6")], [(0, "build"), (0, "render_odeint"), (0, "render_pattern"), (0, "render")]))
+            ref_scheds.append(([(c, "P7")], [(0, "build"), (0, "edit"), (0, "render")]))
     ref = {}
     nexec = 0
     for s in seeds:
